@@ -34,6 +34,7 @@ def must_see(tier):
         m[impl + ':cursor-subtree-emptied'] = 5
         m[impl + ':cursor-leaf-split'] = 20
         m[impl + ':cursor-entry-deleted'] = 20
+        m[impl + ':cursor-leaf-tail-deleted'] = 20
         m[impl + ':iterator-outlived-clear'] = 10
         m[impl + ':outcome:StopIteration'] = 20
         m[impl + ':outcome:entry'] = 1000
@@ -229,7 +230,10 @@ def run_history(fam, kind, impl, rng, rec, h):
             if out[0] == 'exc':
                 rec.ev('%s:outcome:%s' % (impl, out[1]))
                 rec.seen(impl, kind, cur.kind, stepk, out[1], last_aim)
-                if out[1] not in ALLOWED:
+                if out[1] not in ALLOWED or (
+                        out[1] == 'StopIteration' and stepk != 'next'):
+                    # (StopIteration ends an ITERATION; an indexed access
+                    # answers IndexError)
                     fail('step-raised-unexpected-exception', step=stepk,
                          cursor=cur.what, observed=out[1], detail=out[2])
                     return
@@ -266,10 +270,21 @@ def run_history(fam, kind, impl, rng, rec, h):
                         break
             q = rng.random()
             try:
-                if q < 0.3 and k in ls.m._keys():
+                if q < 0.25 and k in ls.m._keys():
                     aim = 'cursor-entry-deleted'
                     ok = ls.step('delitem' if is_mapping else 'remove', (k,))
-                elif q < 0.6 and leaf is not None and len(w.leaf_keys) > 1:
+                elif q < 0.4 and leaf is not None and len(leaf) >= 2 and \
+                        k in leaf and leaf.index(k) < len(leaf) - 1:
+                    # the cursor's leaf loses entries BEHIND the cursor and
+                    # stays in the tree (a range computed when the cursor
+                    # entered the leaf now reaches beyond its end)
+                    aim = 'cursor-leaf-tail-deleted'
+                    ok = True
+                    tail = leaf[leaf.index(k) + 1:]
+                    for kk in tail[rng.randrange(len(tail)):]:
+                        ok = ok and ls.step('delitem' if is_mapping
+                                            else 'remove', (kk,))
+                elif q < 0.65 and leaf is not None and len(w.leaf_keys) > 1:
                     aim = 'cursor-leaf-unlinked'
                     ok = True
                     victims = list(leaf)
